@@ -697,13 +697,13 @@ Definition expect_Topic_exit : list string :=
   ; "call t.backend.Delete"
   ; "return"
   ; "}"
-  ; "call t.RLock"
+  ; "call t.Lock"
   ; "range t.channelMap {"
   ; "call channel.Close"
   ; "if err != nil {"
   ; "}"
   ; "}"
-  ; "call t.RUnlock"
+  ; "call t.Unlock"
   ; "call t.flush"
   ; "call t.backend.Close"
   ; "return" ].
